@@ -483,13 +483,18 @@ class _IncomingPacketHandler(Thread):
             if pk is None:
                 continue
 
+            # Port and channel as received: callbacks get the packet object
+            # itself and may change it while it is being dispatched
+            port = pk.port
+            channel = pk.channel
+
             # All-packet callbacks
             self.cf.packet_received.call(pk)
 
             found = False
             for cb in (cb for cb in list(self.cb)
-                       if cb.port == (pk.port & cb.port_mask) and
-                       cb.channel == (pk.channel & cb.channel_mask)):
+                       if cb.port == (port & cb.port_mask) and
+                       cb.channel == (channel & cb.channel_mask)):
                 try:
                     cb.callback(pk)
                 except Exception:  # pylint: disable=W0703
@@ -499,7 +504,7 @@ class _IncomingPacketHandler(Thread):
                     import traceback
 
                     logger.error('Exception while doing callback on port'
-                                 ' [%d]\n\n%s', pk.port,
+                                 ' [%d]\n\n%s', port,
                                  traceback.format_exc())
                 if cb.port != 0xFF:
                     found = True
